@@ -1,7 +1,10 @@
 (* Prop_C03.v — C03: total allocation: whenever the key comes back, every lock of that guard / call has
-   already been released.  Call-level theorems in fault-free worlds for every shape (whole-history monitor
-   statement: checked on every generated scenario; proof obligation in progress, see DESIGN.md). *)
-From HL Require Import Base Model Shape Algo Api OpsLemmas Lemmas ShapeLemmas ApiLemmas QuietLemmas Check Monitors Pf_Calls Pf_Hist.
+   already been released.  Call-level theorems in fault-free worlds for every shape (C03_every_history: the
+   monitor holds of every fault-free API-call-atomic history; C03_every_schedule_waits_with_own_locks_only: in every state
+   of every schedule of the interleaved model a thread waiting inside an acquisition holds only leaves of what it is
+   acquiring — nothing from before the call). *)
+From HL Require Import Base Model Shape Algo Api Conc OpsLemmas Lemmas ShapeLemmas ApiLemmas QuietLemmas Check Monitors Pf_Calls Pf_Hist.
+From HL Require WpMain Wp03.
 
 (* drop(guard) / unlock(guard): exactly the guard's holds are released, the table is what it was before the
    acquisition *)
@@ -79,8 +82,33 @@ Example C03_every_history_nonvacuous :
   wf_histb ex_hist = true /\ length (model_obs ex_hist) = 15 /\ mon_C03 ex_hist (model_obs ex_hist) = true.
 Proof. vm_compute. repeat split. Qed.
 
+
+(* interleaved model, every schedule: a thread that waits inside an acquisition (of a lock or collection c) holds only
+   leaves of c: everything it held before was released before the key came back *)
+Theorem C03_every_schedule_waits_with_own_locks_only :
+  forall b sched t k l c m f p l', Wp03.wfB03 b = true ->
+  let sc := bs_sc b in
+  let s := fst (run_sched (bs_wp b) (sc_env sc) (sc_nlocks sc) (binit b) sched) in
+  parked (get_thr (b_thr s) t) = Some (ORaw k l) -> rop_blocking k = true ->
+  th_cur (get_thr (b_thr s) t) = Some (AAcquire c m f, p) ->
+  holds_b (b_w s) t l' = true -> In l' (leaves (shape_of sc c)).
+Proof. exact Wp03.every_schedule_waits_with_own_locks_only. Qed.
+
+(* non-vacuity: thread 0 waits for the second lock of a boxed collection while holding the first; thread 1 holds the second *)
+Definition ex03b : bscen :=
+  mkbs (mks 3 0 [0; 1; 2] [] [SBoxed (SSeq [SLeaf KMutex 0; SLeaf KMutex 1]); SLeaf KMutex 1; SLeaf KMutex 2] [] [] [] 6 [])
+       false
+       [[AKeyGet; AAcquire 2 Ex FGuard; AGuardDrop; AKeyGet; AAcquire 0 Ex FGuard; AGuardDrop];
+        [AKeyGet; AAcquire 1 Ex FGuard; AGuardWrite 0; AGuardDrop]].
+Example C03_schedule_example :
+  Wp03.wfB03 ex03b = true /\
+  let s := fst (run_sched false (sc_env (bs_sc ex03b)) 3 (binit ex03b) [1; 1; 0; 0; 0; 0; 0]) in
+  waits_b false s 0 = Some 1 /\ map (fun l => holds_b (b_w s) 0 l) [0; 1; 2] = [true; false; false].
+Proof. vm_compute. auto. Qed.
+
 Print Assumptions C03_guard_drop_releases_all.
 Print Assumptions C03_unlock_step.
 Print Assumptions C03_scoped_restores.
 Print Assumptions C03_no_self_wait.
 Print Assumptions C03_every_history.
+Print Assumptions C03_every_schedule_waits_with_own_locks_only.
